@@ -1,4 +1,5 @@
 import NrDaemon.Model.Config
+import NrDaemon.Gen.Limits
 /-!
   C19 — settings resolve as command line over file over default, for all syntaxes.
 
@@ -142,3 +143,14 @@ theorem C19_lexer_total (input : CBytes) : (∃ as, lexAll input = .ok as) ∨ (
 #guard ((configure ["--define", "port=9"] (fun _ => none) "@s".toUTF8.toList).cfg.get .addr) == "9".toUTF8.toList
 #guard (flagAssign daemonFlags 3 ["--pidfile", "/x"]).1 == (flagAssign daemonFlags 3 ["-pidfile=/x"]).1
 #guard (flagAssign daemonFlags 3 ["--pidfile", "/x"]).1 == (flagAssign daemonFlags 3 ["--define", "pidfile = '/x'"]).1
+
+/-- the default of `app_timeout` in the model is `limits.DefaultAppTimeout` (regenerated) -/
+theorem C19_app_timeout_default_tied : (DefaultAppTimeoutNs : Nat) = Gen.Limits.DefaultAppTimeout := by decide
+
+/-- `app_timeout`: a bare number is milliseconds, units are those of `time.ParseDuration`, an empty or malformed value is an
+error (evaluated instances of the model the engine compares with the real `Timeout.UnmarshalText`) -/
+def timeoutExamplesOk : Bool :=
+  parseTimeout "30".toUTF8.toList == some 30000000 && parseTimeout "45s".toUTF8.toList == some 45000000000 &&
+  parseTimeout "1h30m".toUTF8.toList == some 5400000000000 && parseTimeout "".toUTF8.toList == none &&
+  parseTimeout "5x".toUTF8.toList == none && parseTimeout "-5s".toUTF8.toList == some (-5000000000)
+#guard timeoutExamplesOk
